@@ -4,4 +4,5 @@ CONSTANTS
   Rich = TRUE
 INVARIANT InvValid
 PROPERTY RefusalIsNoOp
+PROPERTY HeldIsIndependent
 CHECK_DEADLOCK FALSE
